@@ -1013,6 +1013,13 @@ func (c *codecV2) decodeRegionError(regionError *errorpb.Error) (*errorpb.Error,
 		}
 	}
 
+	if errInfo := regionError.BucketVersionNotMatch; errInfo != nil {
+		errInfo.Keys, err = c.DecodeBucketKeys(errInfo.Keys)
+		if err != nil {
+			return nil, err
+		}
+	}
+
 	if errInfo := regionError.EpochNotMatch; errInfo != nil {
 		decodedRegions := make([]*metapb.Region, 0, len(errInfo.CurrentRegions))
 		for _, meta := range errInfo.CurrentRegions {
